@@ -35,7 +35,14 @@ type c41Case struct {
 	// request may itself be a pointer into it ("req"), a stream's exchange
 	// inputs may be ("in"), and large results come back as pointers.
 	Shm string `json:"shm,omitempty"` // "" | adv | req | in
+	// WriteFail > 0: on the judged (second) run the pipe's peer goes away after
+	// that many per-mille of the output the first run produced
+	WriteFail int `json:"write_fail,omitempty"`
 }
+
+// c41OutLen is the output length of the last fault-free pipe run; c41FailAt >= 0
+// makes the next pipe run's writer fail after that many bytes.
+var c41OutLen, c41FailAt = 0, -1
 
 type memStore struct {
 	mu sync.Mutex
@@ -98,6 +105,16 @@ func genC41(t *rapid.T) c41Case {
 			c.Call.Unary.Outcome, c.Call.Unary.Err = "value", nil
 		}
 	}
+	if c.Transport == "pipe" && c.Shm == "" && rapid.IntRange(0, 2).Draw(t, "peergone") == 0 {
+		c.WriteFail = []int{1, 100, 250, 500, 750, 900, 999}[rapid.IntRange(0, 6).Draw(t, "peergoneat")]
+		if c.Call.Kind == "stream" && len(c.Call.Inputs) > 0 && rapid.Bool().Draw(t, "peergonecast") {
+			// the turn whose output cannot be written holds an input the framework had to copy
+			typ := []string{"int32", "int16"}[rapid.IntRange(0, 1).Draw(t, "peergonecasttype")]
+			for i := range c.Call.Inputs {
+				c.Call.Inputs[i].Type = typ
+			}
+		}
+	}
 	if rapid.IntRange(0, 5).Draw(t, "ver") == 0 {
 		c.Version = "1.2.3"
 		v := []string{"1.2.3", "9.9.9"}[rapid.IntRange(0, 1).Draw(t, "cver")]
@@ -155,7 +172,20 @@ func (c c41Case) play(srv *vgirpc.Server, h *vgirpc.HttpServer, origin string, o
 	}
 	if c.Transport == "pipe" {
 		req, in := call.PipeBytes()
-		res := lib.RunPipe(srv, append(append([]byte{}, req...), in...))
+		res := lib.RunPipeFail(srv, append(append([]byte{}, req...), in...), c41FailAt)
+		if c41FailAt < 0 {
+			c41OutLen = len(res.Out)
+		} else {
+			out.Label("pipe-peer-gone")
+			if c.Call.Kind == "stream" && c41FailAt > 0 {
+				out.Label("pipe-peer-gone:mid-stream")
+				if len(c.Call.Inputs) > 0 {
+					if castable, equal := c.Call.Inputs[0].Castable(); castable && !equal {
+						out.Label("pipe-peer-gone:mid-stream:cast-input")
+					}
+				}
+			}
+		}
 		if res.Panic != "" {
 			out.Violate("C41/panic", "panic escaped Serve: %s", lib.Short(res.Panic, 200))
 		}
@@ -366,7 +396,12 @@ func runC41(c c41Case) (out lib.Outcome) {
 	base := outstanding()
 	c.play(srv, h, origin.URL, &out)
 	a := outstanding()
+	c41FailAt = -1
+	if c.Transport == "pipe" && c.Shm == "" && c.WriteFail > 0 {
+		c41FailAt = c41OutLen * c.WriteFail / 1000
+	}
 	what := c.play(srv, h, origin.URL, &out)
+	c41FailAt = -1
 	b := outstanding()
 	failing := false
 	if f, ok := c.Call.Fails(); ok && f {
@@ -399,11 +434,11 @@ func runC41(c c41Case) (out lib.Outcome) {
 
 var propC41 = lib.Prop[c41Case]{
 	ID: "C41",
-	Rule: "one scripted call per case (every call kind of the pipe histories: unary outcomes, bad parameters, refusals, streams with every turn outcome, casts and cast failures, cancels; over HTTP also response-cap refusals, externalised results, and parameters supplied through an external pointer whose fetched stream is params / logs+params / two data batches / truncated), run twice on one server built with -tags leakcheck. " +
+	Rule: "one scripted call per case (every call kind of the pipe histories: unary outcomes, bad parameters, refusals, streams with every turn outcome, casts and cast failures, cancels; over HTTP also response-cap refusals, externalised results, and parameters supplied through an external pointer whose fetched stream is params / logs+params / two data batches / truncated; on the pipe a fifth of the judged runs lose their peer after a drawn fraction of the output), run twice on one server built with -tags leakcheck. " +
 		"Oracle: the framework's outstanding Arrow bytes (LeakCheckSummary) after the second run equal those after the first (the first run absorbs per-server lazily cached allocations). Non-trivial: a failing path, an external input, or a response cap.",
 	Gen:          genC41,
 	Run:          runC41,
-	Essential:    []string{"transport:pipe", "transport:http", "failing-path", "external-input:params+logs", "external-input:cut-in-second", "shm:req", "shm:in", "shm:result-pointer", "shm:client-pointer-sent", "response-cap", "externalized-cap:unary", "externalized-cap:stream", "kind:stream"},
+	Essential:    []string{"pipe-peer-gone:mid-stream", "pipe-peer-gone:mid-stream:cast-input", "transport:pipe", "transport:http", "failing-path", "external-input:params+logs", "external-input:cut-in-second", "shm:req", "shm:in", "shm:result-pointer", "shm:client-pointer-sent", "response-cap", "externalized-cap:unary", "externalized-cap:stream", "kind:stream"},
 	EssentialMin: 300,
 	Assumptions:  []string{"only buffers taken from the package's checked allocator are counted; batches the IPC reader decodes with arrow's default allocator and handler-built batches are outside it"},
 }
